@@ -1061,6 +1061,48 @@ pub fn generate<BF: PrimeField64, EF: ExtensionField<BF>>(rng: &mut Rng, cfg: &G
     Program { calls: g.calls, publics: g.publics, privates: g.privates }
 }
 
+/// Additions, subtractions and connects only: no extension multiplication anywhere, so the trace is
+/// the same whatever reduction polynomial the ALU table is built for.
+pub fn generate_linear<BF: PrimeField64, EF: ExtensionField<BF>>(rng: &mut Rng, n: usize) -> Program {
+    let cfg = GenCfg { min_calls: n, max_calls: n, hints: false, recompose_npo: false, horner: 0, claim_privates: true, div: false, creator_aliasing: false };
+    let mut g: Gen<'_, BF, EF> = Gen { rng, cfg, calls: Vec::new(), arena: Vec::new(), publics: Vec::new(), privates: Vec::new(), _p: core::marker::PhantomData };
+    let v = g.rand_val();
+    g.emit_input(v, true);
+    let v = g.rand_val();
+    g.emit_input(v, false);
+    while g.calls.len() < n {
+        match g.rng.below(6) {
+            0 => {
+                let v = g.rand_val();
+                g.emit_const(v);
+            }
+            1 => {
+                let v = g.rand_val();
+                let p = g.rng.chance(1, 2);
+                g.emit_input(v, p);
+            }
+            2 | 3 | 4 => {
+                let (a, b) = (g.any(), g.any());
+                let k = g.rng.below(2) as u8;
+                g.op2(k, a, b);
+            }
+            _ => {
+                let a = g.any();
+                if g.arena[a].origin == 3 {
+                    let va = g.v(a);
+                    let b = g.emit_input(va, true);
+                    g.calls.push(Call::Connect(a, b));
+                }
+            }
+        }
+    }
+    let privs: Vec<usize> = (0..g.arena.len()).filter(|i| g.arena[*i].origin == 2).collect();
+    for p in privs {
+        g.op2(0, p, 0);
+    }
+    Program { calls: g.calls, publics: g.publics, privates: g.privates }
+}
+
 /// Change one input value; returns which (public?, index) was changed.
 pub fn perturb_input<BF: PrimeField64, EF: ExtensionField<BF>>(p: &mut Program, rng: &mut Rng) -> Option<(bool, usize)> {
     let np = p.publics.len();
